@@ -17,11 +17,15 @@ class MessageHead(packet.Packet):
         ''' remove padding from payload list after disect() completes '''
         formats.remove_padding(self)
 
-        if not self.payload:
-            # Some payloads are empty and scapy will not construct them
-            if self.guess_payload_class(b'').fields_desc:
+        # Some payloads are empty and scapy will not construct them
+        msgcls = self.guess_payload_class(b'')
+        if msgcls is packet.Raw:
+            # An unknown message type is complete as far as can be known
+            pass
+        elif not self.payload:
+            if msgcls.fields_desc:
                 raise formats.VerifyError('Message without payload')
-        if isinstance(self.payload, packet.Raw):
+        elif isinstance(self.payload, packet.Raw):
             raise formats.VerifyError('Message with improper payload')
 
         packet.Packet.post_dissection(self, pkt)
